@@ -50,6 +50,20 @@ type Case struct {
 	Type    jgen.TypeDesc `json:"type"`
 	Value   jgen.Recipe   `json:"value"`
 	Setting Setting       `json:"setting"`
+	// More: Encoder only - the values of the 2nd, 3rd ... Encode call on the same Encoder (default: Value
+	// again). An Encode call that fails to marshal its value must not affect the calls that follow.
+	More []jgen.Recipe `json:"more,omitempty"`
+}
+
+// args returns the value of every Encode call (one element for the other entry points).
+func args(c Case) []any {
+	xs := []any{arg(c)}
+	for _, r := range c.More {
+		cc := c
+		cc.Value = r
+		xs = append(xs, arg(cc))
+	}
+	return xs
 }
 
 func arg(c Case) any {
@@ -72,7 +86,8 @@ func runStd(c Case) (r result) {
 			r.pan = p
 		}
 	}()
-	x := arg(c)
+	xs := args(c)
+	x := xs[0]
 	s := c.Setting
 	switch s.API {
 	case "Marshal", "Append":
@@ -87,7 +102,7 @@ func runStd(c Case) (r result) {
 			e.SetIndent(s.Prefix, s.Indent)
 		}
 		for i := 0; i < s.N; i++ {
-			if err := e.Encode(x); err != nil {
+			if err := e.Encode(xs[i%len(xs)]); err != nil {
 				r.err = err
 				w.buf.WriteString(fmt.Sprintf("<call %d failed>", i)) // which calls fail is part of the comparison
 			}
@@ -103,7 +118,8 @@ func runSeg(c Case) (r result) {
 			r.pan = p
 		}
 	}()
-	x := arg(c)
+	xs := args(c)
+	x := xs[0]
 	s := c.Setting
 	switch s.API {
 	case "Marshal":
@@ -120,7 +136,7 @@ func runSeg(c Case) (r result) {
 			e.SetIndent(s.Prefix, s.Indent)
 		}
 		for i := 0; i < s.N; i++ {
-			if err := e.Encode(x); err != nil {
+			if err := e.Encode(xs[i%len(xs)]); err != nil {
 				r.err = err
 				w.buf.WriteString(fmt.Sprintf("<call %d failed>", i)) // which calls fail is part of the comparison
 			}
@@ -297,6 +313,11 @@ func TestMarshalDiff(t *testing.T) {
 		nvals := rapid.IntRange(1, 4).Draw(rt, "nvals")
 		for i := 0; i < nvals; i++ {
 			c := Case{Type: td, Value: jgen.GenValue(rt, typ, vo), Setting: genSetting(rt)}
+			if c.Setting.API == "Encoder" && c.Setting.N > 1 && rapid.Bool().Draw(rt, "more") {
+				for k := 1; k < c.Setting.N; k++ {
+					c.More = append(c.More, jgen.GenValue(rt, typ, vo))
+				}
+			}
 			runOne(rt, "MarshalDiff", c, typ)
 		}
 	})
@@ -320,6 +341,50 @@ func runOne(rt *rapid.T, test string, c Case, typ reflect.Type) {
 }
 
 // TestStringEscape: Escape / AppendEscape against the standard library.
+// TestEncoderSequences: one Encoder, 2..6 Encode calls of interface-held values among which some cannot
+// be marshalled (NaN, +Inf, a MarshalJSON / MarshalText method that fails, invalid RawMessage, Number that is
+// not a number): which calls fail, and what the others write, must be what encoding/json does.
+func TestEncoderSequences(t *testing.T) {
+	anyT := jgen.TypeDesc{K: "any"}
+	f64, str, mval, tval, raw, num, i64 := jgen.TypeDesc{K: "float64"}, jgen.TypeDesc{K: "string"}, jgen.TypeDesc{K: "@MVal"}, jgen.TypeDesc{K: "@TVal"}, jgen.TypeDesc{K: "raw"}, jgen.TypeDesc{K: "number"}, jgen.TypeDesc{K: "int"}
+	dyn := func(d *jgen.TypeDesc, r jgen.Recipe) jgen.Recipe { return jgen.Recipe{Dyn: d, Elems: []jgen.Recipe{r}} }
+	good := []jgen.Recipe{dyn(&f64, jgen.Recipe{F: math.Float64bits(1.5)}), dyn(&str, jgen.Recipe{S: []byte("<ok>")}), dyn(&mval, jgen.Recipe{Elems: []jgen.Recipe{{S: []byte("v")}}}),
+		dyn(&raw, jgen.Recipe{S: []byte(` {"a": 1}`)}), dyn(&num, jgen.Recipe{S: []byte("12")}), dyn(&i64, jgen.Recipe{I: 7}), {Nil: true}}
+	bad := []jgen.Recipe{dyn(&f64, jgen.Recipe{F: math.Float64bits(math.NaN())}), dyn(&f64, jgen.Recipe{F: math.Float64bits(math.Inf(1))}), dyn(&mval, jgen.Recipe{Elems: []jgen.Recipe{{S: []byte("ERR")}}}),
+		dyn(&tval, jgen.Recipe{Elems: []jgen.Recipe{{S: []byte("ERR")}}}), dyn(&raw, jgen.Recipe{S: []byte(`{"a":`)}), dyn(&num, jgen.Recipe{S: []byte("1x")})}
+	evid.Check(t, "EncoderSequences", 1500, func(rt *rapid.T) {
+		n := rapid.IntRange(2, 6).Draw(rt, "n")
+		var vals []jgen.Recipe
+		nbad := 0
+		for i := 0; i < n; i++ {
+			if rapid.IntRange(0, 2).Draw(rt, "bad") == 0 {
+				vals = append(vals, rapid.SampledFrom(bad).Draw(rt, "badv"))
+				nbad++
+			} else {
+				vals = append(vals, rapid.SampledFrom(good).Draw(rt, "goodv"))
+			}
+		}
+		s := Setting{API: "Encoder", N: n, EscapeHTML: rapid.Bool().Draw(rt, "eschtml"), ByPtr: rapid.Bool().Draw(rt, "byptr")}
+		if rapid.IntRange(0, 2).Draw(rt, "ind") == 0 {
+			s.Prefix, s.Indent = ">", " "
+		}
+		if rapid.IntRange(0, 5).Draw(rt, "wfail") == 0 {
+			s.FailAt = rapid.IntRange(1, n).Draw(rt, "failat")
+		}
+		c := Case{Type: anyT, Value: vals[0], More: vals[1:], Setting: s}
+		evid.Eval(1)
+		evid.Label("encoder-sequence")
+		if nbad > 0 && nbad < n {
+			evid.Label("encoder-sequence.mixes-failing-and-good-values")
+			evid.NonTrivial(evid.HashS("encseq", fmt.Sprintf("%+v", c)))
+		}
+		evid.Sample(c)
+		if f := checkCase(c); f != nil {
+			evid.Violation(rt, "EncoderSequences", c, f)
+		}
+	})
+}
+
 func TestStringEscape(t *testing.T) {
 	evid.Check(t, "StringEscape", 20000, func(rt *rapid.T) {
 		s := string(jgen.GenString(rt))
